@@ -51,6 +51,8 @@ def items(i, n, tier):
     if not small:
         # predicates consume nothing and yield nothing: the alternative stands for the rule AFTER the predicate
         out += [SEQ(("not", REF("R")), REF("S")), SEQ(("and", REF("S")), REF("S"))]
+        # optional, repeated and suppressed references in front of the reference that yields the result
+        out += [SEQ(("opt", REF("R")), REF("S")), SEQ(("star", REF("R"), None, False), REF("S")), SEQ(("sup", REF("R")), REF("S"))]
     if small:
         if i == n - 1:
             # only in the last rule: a guarded reference back to an earlier rule followed by a common rule
@@ -123,12 +125,18 @@ def inh(st, e):
                     out.append(c)
         return out
     if k == "seq":
+        out = []
         for x in e[1]:
             r = inh(st, x)
-            if r:
-                return r
-        return []
-    return []
+            for c in r:
+                if c not in out:
+                    out.append(c)
+            if r and x[0] not in ("opt", "star"):
+                break  # this element always yields the result when the alternative matches; optional ones may be absent
+        return out
+    if k in ("opt", "star", "plus"):
+        return inh(st, e[1])
+    return []  # predicates and suppressed matches yield nothing
 
 
 def conforms(st, cls, rule):
